@@ -593,9 +593,17 @@ Definition op_target (o : op) : nat :=
   | OPushBack h _ | ODestroy h | OWrite h _ _ | OReserve h _ => h
   end.
 
-Lemma step_spec s o : Inv s -> op_target o < length (s_hs s) -> ok s (step all_fixed s o).
+(* every operation: invariant and number of handles kept; no defect met when the documented precondition holds
+   (op_pre: the index of write is in range - outside it the model refuses with DOutOfRange and does not touch the state) *)
+Definition okp (s : state) (o : op) (r : res) : Prop :=
+  Invg (r_s r) None /\ (op_pre s o = true -> r_df r = None) /\ length (s_hs (r_s r)) = length (s_hs s).
+Lemma ok_okp s o r : ok s r -> okp s o r.
+Proof. intros (A & B & C). split; [exact A|]. split; [intros _; exact B|exact C]. Qed.
+
+Lemma step_spec s o : Inv s -> op_target o < length (s_hs s) -> okp s o (step all_fixed s o).
 Proof.
-  unfold Inv. intros I Hi. destruct o; cbn [op_target step] in *.
+  unfold Inv. intros I Hi.
+  destruct o; try (lazymatch goal with |- okp _ (OWrite _ _ _) _ => fail | _ => apply ok_okp end); cbn [op_target step] in *.
   - destruct (destroy_spec s None h I Hi) as (I1 & D1 & E1 & _ & L1 & _). apply ok_bind; auto. apply build_spec; auto; lia.
   - destruct (Nat.eqb_spec h src); [unfold ok; cbn; auto|].
     destruct (destroy_spec s None h I Hi) as (I1 & D1 & E1 & _ & L1 & _). apply ok_bind; auto. apply withcopy_spec; auto; lia.
@@ -607,8 +615,9 @@ Proof.
   - apply (reallocate_spec s h n I Hi).
   - apply push_back_spec; auto.
   - destruct (destroy_spec s None h I Hi) as (I1 & D1 & _ & _ & L1 & _). unfold ok; auto.
-  - destruct (Nat.ltb k (h_size (geth s h))); unfold ok; cbn [ret r_s r_df]; auto.
-    destruct (write_cell_inv s None h k v I) as [I2 E2]. rewrite E2. auto.
+  - unfold okp. cbn [op_pre]. destruct (Nat.ltb k (h_size (geth s h))); cbn [ret r_s r_df].
+    + destruct (write_cell_inv s None h k v I) as [I2 E2]. rewrite E2. auto.
+    + split; [exact I|]. split; [intros X; discriminate X|reflexivity].
   - destruct (reallocate_spec s h n I Hi) as ((I1 & D1 & L1) & _). apply ok_bind; auto.
     apply (reallocate_spec _ h 0 I1). lia.
 Qed.
@@ -651,14 +660,23 @@ Qed.
 Definition Inv_init_stmt := forall nh, Inv (init nh).
 Definition Inv_step_stmt := forall s o, Inv s -> op_target o < length (s_hs s) ->
   Inv (r_s (step all_fixed s o)) /\ length (s_hs (r_s (step all_fixed s o))) = length (s_hs s).
-Definition No_defect_stmt := forall s o, Inv s -> op_target o < length (s_hs s) -> r_df (step all_fixed s o) = None.
+(* under the invariant and the documented precondition of the operation, no defect condition is met; outside the
+   precondition (write with i >= size: undefined in the code) the model refuses and leaves the state as it is *)
+Definition No_defect_stmt := forall s o, Inv s -> op_target o < length (s_hs s) ->
+  (op_pre s o = true -> r_df (step all_fixed s o) = None)
+  /\ (op_pre s o = false -> r_df (step all_fixed s o) = Some DOutOfRange /\ r_s (step all_fixed s o) = s).
 Definition Inv_run_stmt := forall nh ops, Forall (fun o => op_target o < nh) ops -> Inv (run all_fixed (init nh) ops).
 (* after any operation sequence: every handle is null/empty or refers to a live block holding exactly its
    capacity; the counter of every handle equals the number of handles sharing its block; every live block is
    referred to by some handle *)
+(* getCounter() of a handle that refers to a block = number of handles referring to that block; on an empty handle
+   (null _cnt) the member function as it is has NO value (it dereferences null), the repaired one returns 0 *)
 Definition Refcount_stmt := forall nh ops i, Forall (fun o => op_target o < nh) ops ->
   let s := run all_fixed (init nh) ops in
-  counter s i = match h_cnt (geth s i) with Some c => Z.of_nat (nrefs (s_hs s) c) | None => 0%Z end.
+  match h_cnt (geth s i) with
+  | Some c => forall fxc, get_counter fxc s i = Some (Z.of_nat (nrefs (s_hs s) c)) /\ 1 <= nrefs (s_hs s) c
+  | None => get_counter false s i = None /\ get_counter true s i = Some 0%Z
+  end.
 Definition No_dangling_stmt := forall nh ops i, Forall (fun o => op_target o < nh) ops ->
   let s := run all_fixed (init nh) ops in
   match h_cnt (geth s i) with
@@ -675,11 +693,21 @@ Proof. intros nh; apply inv_init. Qed.
 Lemma Inv_step_proof : Inv_step_stmt.
 Proof. intros s o I H. destruct (step_spec s o I H) as (A & _ & C). auto. Qed.
 Lemma No_defect_proof : No_defect_stmt.
-Proof. intros s o I H. destruct (step_spec s o I H) as (_ & B & _). auto. Qed.
+Proof.
+  intros s o I H. destruct (step_spec s o I H) as (_ & B & _). split; [exact B|].
+  destruct o; cbn [op_pre]; try discriminate. intros E. cbn [step]. rewrite E. auto.
+Qed.
 Lemma Inv_run_proof : Inv_run_stmt.
 Proof. intros nh ops F. apply (reach_inv nh). apply run_reach; auto. constructor. Qed.
 Lemma Refcount_proof : Refcount_stmt.
-Proof. intros nh ops i F s. apply counter_sharers. apply Inv_run_proof; auto. Qed.
+Proof.
+  intros nh ops i F s. pose proof (Inv_run_proof nh ops F) as I. fold s in I.
+  pose proof (counter_sharers s i I) as C. unfold counter in C. unfold get_counter.
+  pose proof (geth_wf s None i I) as W. unfold hwf in W.
+  destruct (h_cnt (geth s i)) as [c|]; [|auto].
+  intros fxc. rewrite C. split; [reflexivity|]. destruct W as (_ & L & _).
+  destruct (inv_b _ _ I c L) as (_ & _ & P). cbn [pendc] in P. lia.
+Qed.
 Lemma No_dangling_proof : No_dangling_stmt.
 Proof.
   intros nh ops i F s. pose proof (Inv_run_proof nh ops F) as I. fold s in I.
